@@ -20,7 +20,7 @@ from ..common import Check, HarnessError
 TWIN = False
 
 LAYOUTS = [" ", "\t", "\n", "\r\n", "  \t ", "\n\n", " /* c */ ", " // c\n", " \\\n ", "\\\n", " /* a\n b */ ", "\r\n\r\n", " \\\r\n", " /* x **/ ",
-           "\n// c1\n// c2\n", " /* / */ ", " //\n"]
+           "\n// c1\n// c2\n", " /* / */ ", " //\n", "\n\\\n", " /* see **note** x */ "]
 L_LAYOUTS = [" ", "\t", "\n", "\r\n", " /*x*/ ", " //x\n", " \\\n ", "\n\n", " /*\n*/ ", " /***/ "]
 
 
